@@ -1321,6 +1321,10 @@ class AnyPayloadDecoder(AbstractSimplePayloadDecoder):
             substrate.seek(fullPosition, os.SEEK_SET)
             length += currentPosition - fullPosition
 
+            if length > sys.maxsize:
+                raise error.PyAsn1Error(
+                    'Length %d at %s exceeds platform limits' % (length, tagSet))
+
             if LOG:
                 for chunk in peekIntoStream(substrate, length):
                     if isinstance(chunk, SubstrateUnderrunError):
